@@ -32,7 +32,24 @@ func vModelAnyUnmarshalNewFn(x *anypb.Any, opts proto.UnmarshalOptions) (proto.M
 
 //verif:replace google.golang.org/protobuf/types/known/anypb.New vModelAnyNew
 func vModelAnyNew(m proto.Message) (*anypb.Any, error) {
+	vLastAnyNew = m
 	return &anypb.Any{TypeUrl: vReqInfoURL, Value: []byte{9}}, nil
+}
+
+var vLastAnyNew proto.Message
+
+// vReqInfoOf: the request info packed into an error detail (natively: really unpacked)
+func vReqInfoOf(a *anypb.Any) *conformancev1.ConformancePayload_RequestInfo {
+	if vNative() {
+		m, err := a.UnmarshalNew()
+		if err != nil {
+			return nil
+		}
+		ri, _ := m.(*conformancev1.ConformancePayload_RequestInfo)
+		return ri
+	}
+	ri, _ := vLastAnyNew.(*conformancev1.ConformancePayload_RequestInfo)
+	return ri
 }
 
 var vUserDetail = &anypb.Any{TypeUrl: "type.googleapis.com/google.protobuf.StringValue", Value: []byte{10, 1, 'u'}}
@@ -192,6 +209,16 @@ func h02a(NR, ND int) {
 				nd++
 			}
 			vAssert(len(exp.Error.Details) == nd, "stream error: the definition's own details are kept; the request info is appended iff there is no response message")
+			if nData == 0 && len(exp.Error.Details) == nd {
+				// which requests the server has seen when it fails at once: a full-duplex server answers (here:
+				// fails) upon the first request, the others read their whole input first
+				ri := vReqInfoOf(exp.Error.Details[nd-1])
+				if streamType == 5 {
+					vAssert(ri != nil && len(ri.Requests) == 1, "immediate stream error, full duplex: the server fails upon the first request and echoes only that one")
+				} else {
+					vAssert(ri != nil && len(ri.Requests) == nReq, "immediate stream error, server stream / half duplex: all requests are echoed")
+				}
+			}
 			if userDetail && len(exp.Error.Details) > 0 {
 				vAssert(vIsUserDetail(exp.Error.Details[0]), "stream error: the definition's own detail comes first")
 			}
@@ -200,3 +227,23 @@ func h02a(NR, ND int) {
 }
 
 func H02a_q() { h02a(3, 3) }
+
+
+// H02n: a test case without a request (a parseable shape the runner cannot handle) is rejected with an error.
+func H02n_q() {
+	vSetEnumLists()
+	s := &conformancev1.TestSuite{Name: "S", RelevantProtocols: []conformancev1.Protocol{1}, RelevantHttpVersions: []conformancev1.HTTPVersion{1},
+		RelevantCodecs: []conformancev1.Codec{1}, RelevantCompressions: []conformancev1.Compression{1}}
+	tc := &conformancev1.TestCase{}
+	if vBool("hasRequest") {
+		tc.Request = &conformancev1.ClientCompatRequest{TestName: "t", StreamType: 1}
+	}
+	s.TestCases = []*conformancev1.TestCase{tc}
+	c0 := configCase{Version: 1, Protocol: 1, Codec: 1, Compression: 1, StreamType: 1}
+	lib, err := newTestCaseLibrary(map[string]*conformancev1.TestSuite{"f.yaml": s}, []configCase{c0}, conformancev1.TestSuite_TEST_MODE_CLIENT) // obligation: no reachable panic
+	if tc.Request == nil {
+		vAssert(err != nil, "a test case without a request is rejected with an error")
+	} else {
+		vAssert(err == nil && len(lib.testCases) == 1, "a well-formed test case is expanded")
+	}
+}
